@@ -195,3 +195,42 @@ Proof.
   - apply andb_true_iff in H. f_equal; lia.
   - inversion H. apply andb_true_iff; lia.
 Qed.
+
+(** * The statements used by Props/C13.v, instantiated *)
+Lemma tempo_sort_stable_permutation : forall (l : list tempo),
+  Permutation (sort_by tp_time l) l /\ sorted_by tp_time (sort_by tp_time l) /\
+  forall k, filter (fun e => tp_time e =? k) (sort_by tp_time l) = filter (fun e => tp_time e =? k) l.
+Proof.
+  intro l. split; [apply sort_by_perm|]. split; [apply sort_by_sorted|]. intro k. apply sort_by_stable.
+Qed.
+
+Lemma tidy_tempos_subseq : forall l, subseq (tidy_tempos l) (sort_by tp_time l).
+Proof. intro l. apply dedup_subseq. Qed.
+
+Lemma tidy_tempos_force : forall l t,
+  force tp_time tp_qpm None (tidy_tempos l) t = force tp_time tp_qpm None (sort_by tp_time l) t.
+Proof. intros. apply (dedup_force tp_time tp_qpm tempo_same tempo_same_spec). apply sort_by_sorted. Qed.
+
+Lemma tidy_tsigs_force : forall l t,
+  force ts_time (fun e => (ts_num e, ts_den e)) None (tidy_tsigs l) t =
+  force ts_time (fun e => (ts_num e, ts_den e)) None (sort_by ts_time l) t.
+Proof. intros. apply (dedup_force ts_time _ tsig_same tsig_same_spec). apply sort_by_sorted. Qed.
+
+Lemma tidy_ksigs_force : forall l t,
+  force ks_time (fun e => (ks_key e, ks_mode e)) None (tidy_ksigs l) t =
+  force ks_time (fun e => (ks_key e, ks_mode e)) None (sort_by ks_time l) t.
+Proof. intros. apply (dedup_force ks_time _ ksig_same ksig_same_spec). apply sort_by_sorted. Qed.
+
+Lemma dedup_drops_exactly_repeats : forall {A} (same : A -> A -> bool) p l x l2,
+  dedup same ((p :: l) ++ x :: l2) =
+  dedup same (p :: l) ++ (if same (last l p) x then [] else [x]) ++ drop_rep same x l2.
+Proof. intros. rewrite dedup_app, dedup_snoc, <- app_assoc. reflexivity. Qed.
+
+Lemma tidy_tempos_adjacent : forall l a b pre post,
+  tidy_tempos l = pre ++ a :: b :: post -> tp_qpm a <> tp_qpm b.
+Proof. intro l. apply (dedup_adjacent tp_qpm tempo_same tempo_same_spec). Qed.
+
+Lemma tempo_dedup_drops_exactly_repeats : forall (p : tempo) l x l2,
+  dedup tempo_same ((p :: l) ++ x :: l2) =
+  dedup tempo_same (p :: l) ++ (if tempo_same (last l p) x then [] else [x]) ++ drop_rep tempo_same x l2.
+Proof. intros. apply dedup_drops_exactly_repeats. Qed.
